@@ -461,12 +461,14 @@ Definition ex_cseries : list cseries :=
 
 Example good_cseries_example :
   Forall good_cseries ex_cseries /\ adj_distinct (map (fun s => merge_labels (cs_l s) []) ex_cseries)
-  /\ length (stream_frames 60 [] ex_cseries) = 4%nat
-  /\ length (chunked_path 60 [] 2 5 ex_cseries) = 4%nat
+  /\ length (stream_frames 60 [] ex_cseries) = 3%nat
+  /\ length (chunked_path 60 [] 2 5 ex_cseries) = 3%nat
   /\ Forall (fits 1000 []) ex_cseries.
 Proof.
-  repeat split; try (vm_compute; reflexivity); try discriminate.
-  - cbn. repeat constructor; cbn; lia.
-  - cbn. repeat constructor.
-  - repeat constructor; vm_compute; reflexivity.
+  split; [|split; [|split; [|split]]].
+  - repeat constructor; cbn; try lia; discriminate.
+  - split; [vm_compute; reflexivity|exact I].
+  - vm_compute. reflexivity.
+  - vm_compute. reflexivity.
+  - repeat (constructor; [vm_compute; reflexivity|]). constructor.
 Qed.
